@@ -57,6 +57,12 @@ UNKNOWN_CONSUMER = 'c9999999-0000-0000-0000-000000000000'
 INCOMPLETE = '00000000-0000-0000-0000-000000000000'
 RC_POOL = gen.STD_RCS + gen.CUSTOM_RCS + ['CUSTOM_RC3', 'CUSTOM_NOPE', 'PCI_DEVICE', 'NOPE']
 TRAIT_POOL = gen.STD_TRAITS + gen.CUSTOM_TRAITS + ['CUSTOM_NOPE', 'NOPE', 'HW_CPU_X86_AVX2']
+# prefixes that are not plain prefixes when read as SQL LIKE patterns ('%', '_' matching another character).
+# objects/trait.py passes the prefix to LIKE unescaped (reported defect); these probes are generated only once
+# KNOWN_FINDINGS.json lists the signature below for C11 (status finding: reported as KNOWN-FINDING; status fixed:
+# any recurrence is a violation) - otherwise the unchanged tree could not pass.
+LIKE_SIG = 'read:traits:startswith-is-sql-like-pattern'
+LIKE_PREFIXES = ['HW%AVX2', 'HW_CPU_X86_A_X2', 'CUSTOM%1', '%']
 PREFIXES = ['CUSTOM_', 'CUSTOM_T', 'CUSTOM_T1', 'HW_CPU_X86_AV', 'HW_CPU_X86_AVX', 'STORAGE_DISK', 'MISC', 'ZZZ', '', 'C', 'CUSTOM_T11']
 
 
@@ -71,7 +77,7 @@ def pick_read_mv(rng, route):
     return rng.choice([m for m in READ_BOUNDARIES if m >= lo])
 
 
-def gen_read(rng, dump, n_rps=8):
+def gen_read(rng, dump, n_rps=8, like_probes=False):
     routes = list(ROUTE_WEIGHTS)
     route = rng.choices(routes, weights=[ROUTE_WEIGHTS[r] for r in routes])[0]
     rd = {'route': route, 'mv': pick_read_mv(rng, route)}
@@ -108,6 +114,8 @@ def gen_read(rng, dump, n_rps=8):
             rd['name'] = 'in:' + ','.join(rng.sample(TRAIT_POOL, rng.choice([1, 2, 3])))
         elif r < 0.75:
             rd['name'] = 'startswith:' + rng.choice(PREFIXES)
+            if like_probes and rng.random() < 0.15:
+                rd['name'] = 'startswith:' + rng.choice(LIKE_PREFIXES)
         elif r < 0.8:
             rd['name'] = rng.choice(['CUSTOM_T1', 'between:A,B', 'in:', ''])
         if rng.random() < 0.5:
@@ -227,15 +235,15 @@ def canon(route, body):
     return b
 
 
-def first_diff(a, b, path=''):
-    """path of the first differing observable of two canonical bodies"""
+def first_diff(a, b, path='', names=('model', 'real')):
+    """path of the first differing observable of two canonical bodies (a: names[0], b: names[1])"""
     if isinstance(a, dict) and isinstance(b, dict):
         for k in sorted(set(a) | set(b), key=str):
             if k not in a:
-                return '%s/%s (only model)' % (path, k)
+                return '%s/%s (only %s)' % (path, k, names[1])
             if k not in b:
-                return '%s/%s (only real)' % (path, k)
-            d = first_diff(a[k], b[k], '%s/%s' % (path, k))
+                return '%s/%s (only %s)' % (path, k, names[0])
+            d = first_diff(a[k], b[k], '%s/%s' % (path, k), names)
             if d:
                 return d
         return None
@@ -243,7 +251,7 @@ def first_diff(a, b, path=''):
         if len(a) != len(b):
             return '%s (length %d vs %d)' % (path, len(a), len(b))
         for i, (x, y) in enumerate(zip(a, b)):
-            d = first_diff(x, y, '%s[%d]' % (path, i))
+            d = first_diff(x, y, '%s[%d]' % (path, i), names)
             if d:
                 return d
         return None
@@ -433,6 +441,11 @@ def _std_rcs():
     return _CACHE['rcs']
 
 
+def is_like_probe(rd):
+    return rd['route'] == 'traits' and rd.get('name', '').startswith('startswith:') and \
+        rd['name'][len('startswith:'):] in LIKE_PREFIXES
+
+
 def monitor_read(rd, resp, d):
     """-> list of (signature, detail): the real response contradicts the real tables"""
     exp = oracle(rd, d)
@@ -450,7 +463,10 @@ def monitor_read(rd, resp, d):
     if route == 'inventory' and isinstance(got, dict) and 'resource_provider_generation' not in got \
             and d['rps'][rd['uuid']]['gen'] == 0:
         want.pop('resource_provider_generation', None)     # unreachable: an inventory implies generation >= 1
-    diff = first_diff(want, got)
+    diff = first_diff(want, got, names=('tables', 'api'))
+    if diff and route == 'traits' and is_like_probe(rd):
+        return [(LIKE_SIG, 'GET %s at 1.%d returns %s; the traits whose name begins with that prefix are %s' % (
+            read_path(rd), rd['mv'], json.dumps(got)[:300], json.dumps(want)[:300]))]
     if diff:
         return [('read:%s:%s' % (route, generic(diff)),
                  'GET %s at 1.%d: %s differs; tables say %s, API says %s' % (
@@ -528,7 +544,7 @@ def compare_read(app, model, rd, d):
             vio.append({'kind': 'correspondence', 'signature': 'read-status:%s' % route,
                         'detail': 'GET %s at 1.%d: real %s %s, model %s %s' % (
                             read_path(rd), rd['mv'], r.status, ops.error_code(r), m['status'], m['code'])})
-        elif 200 <= r.status < 300:
+        elif 200 <= r.status < 300 and not (is_like_probe(rd) and vio):
             a, b = canon(route, m['body']), canon(route, r.json)
             diff = first_diff(a, b)
             if diff:
@@ -644,7 +660,7 @@ def case(args):
                 break
             # ---- reads after this prefix (violations are only recorded here: shrinking re-runs histories
             # on this worker's database, so it happens after the last request of the step)
-            reads = [gen_read(rng, after, n_rps) for _ in range(k)]
+            reads = [gen_read(rng, after, n_rps, profile.get('like_probes', False)) for _ in range(k)]
             found = []
             for rd in reads:
                 st, v = compare_read(app, model, rd, after)
@@ -688,7 +704,7 @@ def run(chk):
     if not getattr(chk, 'no_lean', False):
         chk.lean_stage(META['lean_module'], exe=True)
     quick = chk.tier == 'quick'
-    n_cases = 300 if quick else 6000
+    n_cases = 300 if quick else 3000
     nops = 40
     k = 3 if quick else 6
     procs = min(16, os.cpu_count() or 4)
@@ -696,9 +712,14 @@ def run(chk):
     seeds = [chk.seed * 1000003 + i for i in range(n_cases)]
     errors = []
     reads = writes = views = 0
+    from harness.common import load_findings
+    profile = dict(PROFILE)
+    profile['like_probes'] = any(f.get('property') == 'C11' and f.get('signature') == LIKE_SIG
+                                 for f in load_findings().get('findings', []))
+    chk.cov['like_pattern_probes_enabled'] = profile['like_probes']
     seen_sig = {}
     with ctx.Pool(procs, initializer=hist._init, initargs=(True,)) as pool:
-        for res in pool.imap_unordered(case, [(s, nops, k, PROFILE) for s in seeds], chunksize=1):
+        for res in pool.imap_unordered(case, [(s, nops, k, profile) for s in seeds], chunksize=1):
             if 'error' in res:
                 errors.append(res['error'])
                 continue
